@@ -26,4 +26,17 @@ Accepted ==
     ELSE /\ PrintT(<<"TRACE-REJECTED", "matched", d - 1, "of", NRec>>)
          /\ PrintT(<<"FIRST-UNMATCHED", ToJson(Rec[d])>>)
          /\ FALSE
+
+-----------------------------------------------------------------------------
+(* Trace specs that take silent steps (spec actions with no logged event) cannot use the diameter.  They track the
+   furthest cursor position reached in TLC register 1:  put  CursorInit  in the initial predicate,
+   CursorSeen(l)  as a CONSTRAINT, and  AcceptedCursor  as the POSTCONDITION.  Needs -workers 1.                *)
+CursorInit == TLCSet(1, 1)
+CursorSeen(l) == IF TLCGet(1) < l THEN TLCSet(1, l) ELSE TRUE
+AcceptedCursor ==
+    LET m == TLCGet(1) IN
+    IF m > NRec THEN TRUE
+    ELSE /\ PrintT(<<"TRACE-REJECTED", "matched", m - 1, "of", NRec>>)
+         /\ PrintT(<<"FIRST-UNMATCHED", ToJson(Rec[m])>>)
+         /\ FALSE
 =============================================================================
